@@ -11,14 +11,14 @@ theorem removeByIdx_rel {img : Img} (hw : WF img) {i : Nat} (hi : i < img.n) (hk
     ∃ img' ρ, removeByIdx img i = .ok (img', .ok) ∧ WF img' ∧ img'.n = img.n ∧ img'.num = img.num - 1 ∧
       KeyRel img img' ρ (fun y => y = i) ∧
       img'.usedslots = img.usedslots - (need (value img i).length : Int) ∧ img'.maxslots = img.maxslots := by
-  obtain ⟨img', r, heq, hw', hn', hnum⟩ := removeByIdx_wf hw (i : Int) (by omega)
-  obtain ⟨rfl, hnum'⟩ := hnum (by omega) (by simpa using hk)
+  obtain ⟨img', r, heq, hw', hn', hnum⟩ := removeByIdx_wf hw (i : Int)
+  obtain ⟨rfl, hnum'⟩ := hnum (by omega) (by omega) (by simpa using hk)
   obtain ⟨hl, hcoll, hcnt, hg⟩ := hw
   have hkc : (img.sl i).count ≥ 1 ∨ (img.sl i).count = -1 := by simpa [Slot.isKey] using hk
   -- recompute the result explicitly
   have hcomp := heq
   unfold removeByIdx at hcomp
-  have hneg : ¬ ((i : Int) < 0) := by omega
+  have hneg : ¬ ((i : Int) < 0 ∨ (i : Int) ≥ img.maxslots) := by have := hl.1; omega
   simp only [hneg, if_false, Int.toNat_natCast, Img.rd_eq _ _ hi, bind, Except.bind] at hcomp
   by_cases h1 : (img.sl i).count = 1
   · obtain ⟨L, hch⟩ := Chain.exists hl hg i hi (by omega)
@@ -87,7 +87,7 @@ theorem removeByIdx_rel {img : Img} (hw : WF img) {i : Nat} (hi : i < img.n) (hk
       have hnle : ¬ (img.sl (img.sl i).hash).count ≤ 1 := by omega
       have hX : removeByIdx img (i : Int) = .ok (R, .ok) := by
         unfold removeByIdx
-        simp [Img.rd_eq _ _ hi, h1, h3, COLLISION_MARK, Img.rd_eq _ _ hld, hnle, Img.modify_eq _ _ _ hld, hR,
+        simp [hneg, Img.rd_eq _ _ hi, h1, h3, COLLISION_MARK, Img.rd_eq _ _ hld, hnle, Img.modify_eq _ _ _ hld, hR,
           pure, Except.pure, bind, Except.bind]
       rw [heq] at hX
       have hRi : img' = R := by cases hX; rfl
